@@ -188,7 +188,7 @@ class Builder:
 # ------------------------------------------------------------------ known findings
 def load_known():
     out = []
-    for p in [os.path.join(VERIF, 'known_findings.json')]:     # generated by pylib/gen_known.py (which merges known_findings.d/*.json)
+    for p in [os.path.join(VERIF, 'known_findings.json')] + sorted(glob.glob(os.path.join(VERIF, 'known_findings.d', '*.json'))):   # fragments are also merged into the json by gen_known.py
         try:
             out += json.load(open(p)).get('findings', [])
         except Exception as e:
